@@ -132,6 +132,7 @@ App(p, h) ==
       [] p \in {"C01", "C04", "C05"} -> WireRun(h) /\ ok
       [] p \in {"C02", "C03"}        -> WireRun(h) /\ ok /\ Len(s) >= 1
       [] p \in {"C06", "C08", "C10"} -> WireRun(h)
+      [] p = "C07" -> WireRun(h) /\ ok /\ ~IsSerial(V(h)) /\ Len(s) >= 1
       [] p = "C12" -> WireRun(h) /\ h.par.filter /\ h.twinof # "" /\ h.twin.set /\ h.twin.scen = h.twinof
       [] p = "C09" -> /\ WireRun(h) /\ h.twinof # "" /\ h.twin.set /\ h.twin.scen = h.twinof
                       \* the one packet that may end a run: an ACK on the probed SACK connection without SACK blocks
@@ -171,6 +172,7 @@ Holds(p, h) ==
       [] p = "C03" -> C03_run(h, s, d, hp)
       [] p = "C04" -> C04_run(h, s, d, hp)
       [] p = "C05" -> C05_run(h, s, d, hp)
+      [] p = "C07" -> C07_run(h, s, d, hp)
       [] p = "C06" -> C06_Sends(h, s) /\ C06_Stop(h, s, d) /\ C06_Endpoints(h, s, h.out)
       [] p = "C08" -> C08_run(h)
       [] p = "C12" -> C12_twin(h, s)
